@@ -5,6 +5,7 @@ package c07
 import (
 	"fmt"
 	"os"
+	"strings"
 
 	"verif/checks/c01"
 	"verif/internal/drive"
@@ -26,7 +27,7 @@ func Sets(thorough bool) (props, items *gen.Set, objs, arrs []drive.Inst) {
 func Run(r *ev.Run) {
 	thorough := r.Tier == "thorough"
 	props, items, objs, arrs := Sets(thorough)
-	r.Rule("G-uneval: combinator trees (allOf/anyOf/oneOf/not/if-then-else subsets/dependentSchemas/$ref/$dynamicRef, depth<=2, thorough 3) over evaluating leaves, next to unevaluatedProperties / unevaluatedItems in {false,{type:integer},true}, plus cousin placements; each also (quick: every 3rd) as a Loader document referred to by a root without unevaluated* keywords; " +
+	r.Rule("G-uneval: combinator trees (allOf/anyOf/oneOf/not/if-then-else subsets/dependentSchemas/$ref/$dynamicRef, depth<=2, thorough 3) over evaluating leaves, next to unevaluatedProperties / unevaluatedItems in {false,{type:integer},true}, plus cousin placements and hand-written shapes that evaluate at child locations or through $ref/$dynamicRef (static-acting, and dynamic with the target in another resource); evaluating leaves in a Loader document with unevaluated* in the referring root; each also (quick: every 3rd) as a Loader document referred to by a root without unevaluated* keywords; " +
 		"x every object over keys {a,b,c} with values {1,\"x\"} (+3 nested) / every array of length<=3 over {1,\"x\"} (+2); each (schema, instance) pair is compared with R1's annotation semantics; non-trivial = R1 evaluated a keyword applicable to the instance type")
 	r.Assume("R1's annotation semantics follow core §7.7.1/§11 (validated on unevaluatedProperties.json, unevaluatedItems.json and the rest of the official suite at start-up)")
 	if n, bad, err := ref.CheckSuite("/repo"); err != nil || len(bad) > 0 {
@@ -72,6 +73,35 @@ func Run(r *ev.Run) {
 		}
 		r.Set("remote_"+kind+"_schemas", n)
 	}
+	// annotations crossing a document boundary: the evaluating keywords sit in a Loader document,
+	// unevaluated* in the referring root
+	cross := func(leaves []string, kw string, pool []drive.Inst) {
+		type rd struct{ root, doc string }
+		var cases []rd
+		for _, l := range leaves {
+			if !strings.HasPrefix(l, "{") {
+				continue
+			}
+			for _, root := range []string{`{"$ref":"http://h/u.json","` + kw + `":false}`, `{"allOf":[{"$ref":"u.json"}],"` + kw + `":{"type":"integer"}}`,
+				`{"anyOf":[{"$ref":"u.json"},{"$ref":"u.json#/$defs/zz"}],"` + kw + `":false}`, `{"if":{"$ref":"u.json"},"else":false,"` + kw + `":false}`, `{"not":{"$ref":"u.json"},"` + kw + `":false}`} {
+				doc := l
+				if strings.Contains(root, "zz") {
+					doc = `{"$defs":{"zz":{"maxProperties":0,"maxItems":0}},` + l[1:]
+					if l == "{}" {
+						doc = `{"$defs":{"zz":{"maxProperties":0,"maxItems":0}}}`
+					}
+				}
+				cases = append(cases, rd{root, doc})
+			}
+		}
+		par.For(len(cases), r.Expired, func(i int, j par.Journal) {
+			c := cases[i]
+			drive.Against(r, j, c.root, pool, drive.Opt{Draft: ref.D2020, BaseURI: "http://h/root.json", Docs: map[string]string{"http://h/u.json": c.doc}, DocsKey: c.doc, Prefix: "cross "})
+		})
+		r.Set("cross_document_"+kw, len(cases))
+	}
+	cross(gen.PropLeaves, "unevaluatedProperties", objs)
+	cross(gen.ItemLeaves, "unevaluatedItems", arrs)
 	remote(props.List, objs, "object")
 	remote(items.List, arrs, "array")
 	par.For(len(items.List), r.Expired, func(i int, j par.Journal) {
